@@ -20,6 +20,8 @@ func init() {
 			"LP-PIPE BuildPipeline: one processor per stage, in order (no reordering of filters across rewriting stages)",
 			"PV-WHOLE LabelSet.Range visits every label; PV-ROLE template functions bound to strings.* carry that function's name",
 			"PV-ROLE templates are executed over set.AsMap() on every path",
+			"PV-WHOLE (ruleLPOffload) the engine builds its pipeline from the stage list as written: two drop stages stay two stages",
+			"PV-WHOLE drop/keep scan every record's label set (no fast path that skips the value matchers)",
 		},
 		NotDecided: []string{"what text/template and sprig functions compute", "whether ansiPattern matches exactly the ANSI colour sequences (regexp semantics)"},
 		Rules: func(r *Run) {
@@ -51,6 +53,8 @@ func init() {
 			ruleLabelSetRangeWhole(r)
 			ruleTemplateStringsByName(r)
 			ruleTemplateDataIsLabels(r)
+			ruleLPOffload(r) // the stage list the pipeline is built from is the query's: stages are not merged or dropped on the way
+			ruleDropKeepAlwaysScan(r)
 		},
 	})
 }
